@@ -95,6 +95,7 @@ fn base_ops() -> Vec<(&'static str, u32)> {
         ("deser_seq", 0),
         ("adaptor_iter_mut", 0),
         ("adaptor_sorted", 0),
+        ("iter_mut_each", 2),
     ]
 }
 
@@ -175,12 +176,12 @@ pub fn profile(prop: u8, thorough: bool) -> Profile {
         8 => {
             p.big_w = 15;
             p.late_writes = 10;
-            p.ops = with(p.ops, &[("retain", 10), ("retain_mut", 12), ("iter_mut", 12), ("pop_if", 14), ("adaptor_iter_mut", 6), ("clear", 0), ("drain", 0)]);
+            p.ops = with(p.ops, &[("retain", 10), ("retain_mut", 12), ("iter_mut", 12), ("pop_if", 14), ("adaptor_iter_mut", 6), ("iter_mut_each", 10), ("clear", 0), ("drain", 0)]);
             p.max_ops = if thorough { 80 } else { 30 };
         }
         9 => {
             p.big_w = 5;
-            p.ops = with(p.ops, &[("iter_mut", 30), ("adaptor_iter_mut", 14), ("clear", 0), ("drain", 0)]);
+            p.ops = with(p.ops, &[("iter_mut", 30), ("adaptor_iter_mut", 14), ("iter_mut_each", 10), ("clear", 0), ("drain", 0)]);
             p.size_w = [1, 1, 2, 2, 6, 3, 0, 0];
             p.max_ops = 14;
             p.prog_len = 44;
@@ -451,6 +452,7 @@ pub fn op_strategy(p: &Profile, kind: Kind, u: u32, dom: u8) -> BoxedStrategy<Op
             "retain_mut" => (mask(), rewrite(dom), mask(), proptest::option::of(any::<u32>()))
                 .prop_map(|(mask, rw, rwmask, tagw)| Op::RetainMut { mask, rw, rwmask, tagw })
                 .boxed(),
+            "iter_mut_each" => (any::<u8>(), any::<u8>(), rewrite(dom), mask()).prop_map(|(how, k, rw, rwmask)| Op::IterMutEach { how, k, rw, rwmask }).boxed(),
             "iter_mut" => {
                 let late_w = p.late_writes;
                 (program(kind, true, plen), rewrite(dom), mask(), proptest::option::of(any::<u32>()), endhow.clone(), any::<bool>(), 0u32..100)
